@@ -80,6 +80,16 @@ CLAIMED = {
         text="TLC checks Theta = inclusion-exclusion and monotonicity for all thresholds on a lattice, d = 1..3. On real CTMCCredit grids (1-d, 2-d, 3-d, symmetric / asymmetric, thresholds on cell boundaries) chains are built over atomic (copula) models; TLC validates: closed-form theta = mass of the union of the default half-spaces inside the truncation box = sum of the rates of the chain states with a coordinate below its threshold; survival probability and par spread recover theta exactly; implied threshold maps back to the same theta; implied spread = par spread at pv = 0 and satisfies the annuity relation between maturities T and 2T.",
         note="Trusted: TLC, atomic stubs, rank / exact / quantised sensors. The implied-spread clauses are thin (quantised 1e-4, only inside the root finder's bracket).",
         ref="5 (C19)"),
+    "C10": dict(
+        technique="TLA+ spec Repr.tla (drift conversion between Levy-Khintchine representations over integer compensators) model-checked by TLC for all sequences of changes; histories on real LevyTriplet objects and the drift routes of exponential models trace-validated by TLC",
+        text="PARTIAL (history / state half only). TLC checks for all sequences of <= 5 representation changes (4 start representations, both variation flags, 27 compensator / drift combinations) that the canonical drift is invariant and that returning to a representation restores its drift. Real LevyTriplet objects over atomic measures (exact integers) and over HEM / Merton / VG / CGMY measures (equality classes at 1e-9) are driven through sequences of set_representation; exponential models (real ones, and atomic ones wrapped after arbitrary conversion histories) must give the forward through the characteristic function at -i, and the direct-simulation drift must equal r - d + omega + the drift of L in the ZERO representation.",
+        note="NOT decided (DESIGN.md section 6): that the closed-form exponents equal the Levy-Khintchine integral of the model's density and that the cumulant classes are its derivatives - real analysis with special functions.",
+        ref="5 (C10)"),
+    "C20": dict(
+        technique="TLA+ spec Params.tla (raw parameters, stamp of the cached derived quantities, guarded assignment, initialisation, build) model-checked by TLC; assignment histories on the real parameter classes and the calibration contract trace-validated by TLC",
+        text="PARTIAL (history half + contract). TLC checks on all histories of <= 5 steps that initialisation refreshes the cache and that a rejected assignment changes nothing. Every real parameter class (HEM, VG, CGMY, Merton, Black-Scholes) is driven through assignment histories (all ordered batches of distinct fields, random histories with interleaved initialisations, inadmissible values) ending with initialisation(); every numeric attribute of the object and omega / exponent / measure masses / cumulant of the model rebuilt from it must be bit-equal to the directly constructed one; constraints must be enforced on every assignment. The default calibration of HEM / Merton / VG / CGMY models (zero and non-zero dividend) must return a same-type model with the parameter inside its interval, repricing the Black-Scholes target within 1e-4, leaving the input untouched.",
+        note="NOT decided: existence / uniqueness of a calibration solution.",
+        ref="5 (C20)"),
 }
 
 NOT_APPLICABLE = {
